@@ -38,6 +38,9 @@ type Case struct {
 	Actors  []string `json:"actors"`
 	Ops     []Op     `json:"ops"`
 	Horizon int      `json:"horizon"` // ticks
+	// Launch: jobs (once / loop, to the actor itself) that an actor arms in its OnLaunch handler, i.e. in every life;
+	// every life's job has its own message id (ID + 1000 x life) and reference
+	Launch map[string][]Op `json:"launch,omitempty"`
 }
 
 func (c Case) JSON() string { b, _ := json.Marshal(c); return string(b) }
@@ -95,6 +98,25 @@ func genCase(t *rapid.T) Case {
 		c.Ops = append(c.Ops, o)
 	}
 	sort.SliceStable(c.Ops, func(i, j int) bool { return c.Ops[i].At < c.Ops[j].At })
+	for _, a := range c.Actors {
+		if rapid.IntRange(0, 2).Draw(t, "launchJobs") != 0 {
+			continue
+		}
+		if c.Launch == nil {
+			c.Launch = map[string][]Op{}
+		}
+		k := rapid.IntRange(1, 2).Draw(t, "nLaunchJobs")
+		for i := 0; i < k; i++ {
+			id++
+			o := Op{Kind: rapid.SampledFrom([]string{"once", "loop"}).Draw(t, "launchKind"), Owner: a, To: a, Ref: fmt.Sprintf("L%d", i), ID: 100 + id}
+			if o.Kind == "once" {
+				o.D = rapid.SampledFrom([]int64{0, int64(tick), int64(3 * tick), int64(time.Second)}).Draw(t, "launchDelay")
+			} else {
+				o.D = rapid.SampledFrom([]int64{int64(tick), int64(2 * tick), int64(time.Second)}).Draw(t, "launchInterval")
+			}
+			c.Launch[a] = append(c.Launch[a], o)
+		}
+	}
 	return c
 }
 
@@ -112,8 +134,13 @@ func run(t *testing.T, c Case) (v *verdict, nontrivial bool, labels []string) {
 	res := vt.Run(t, func() {
 		w := world.New(world.Options{SysDecisions: []string{"restart"}, SysStrategy: "one"})
 		defer w.Close()
+		spawnedAt := w.Now()
 		for _, a := range c.Actors {
-			_, _ = w.Spawn(world.Spec{Name: a})
+			sp := world.Spec{Name: a}
+			for _, o := range c.Launch[a] {
+				sp.OnLaunch = append(sp.OnLaunch, world.Step{Op: o.Kind, To: o.To, D: o.D, ID: o.ID, S: o.Ref, PerLife: true})
+			}
+			_, _ = w.Spawn(sp)
 		}
 		vt.Settle()
 		alive := map[string]bool{}
@@ -133,6 +160,25 @@ func run(t *testing.T, c Case) (v *verdict, nontrivial bool, labels []string) {
 			if j.end < 0 {
 				j.end = at
 			}
+		}
+		life := map[string]int{}
+		armLaunchJobs := func(a string, at int64) {
+			// what the actor's OnLaunch handler does at the start of every life
+			for _, o := range c.Launch[a] {
+				lo := o
+				lo.ID = o.ID + 1000*life[a]
+				lo.Ref = fmt.Sprintf("%s#%d", o.Ref, life[a])
+				exps = append(exps, callExp{a, lo.Kind, lo.Ref, []string{""}})
+				j := &job{op: lo, t0: at, end: -1}
+				active[a+"|"+lo.Ref] = j
+				known[a+"|"+lo.Ref] = true
+				jobs = append(jobs, j)
+				lab["job-armed-in-OnLaunch"] = true
+			}
+			life[a]++
+		}
+		for _, a := range c.Actors {
+			armLaunchJobs(a, spawnedAt)
 		}
 		for tk := 0; tk <= c.Horizon; tk++ {
 			now := w.Now()
@@ -223,6 +269,13 @@ func run(t *testing.T, c Case) (v *verdict, nontrivial bool, labels []string) {
 							endJob(j, now)
 							delete(active, k)
 							delete(known, k)
+						}
+					}
+					if o.Kind == "restart" {
+						// the new life starts at once and arms its own jobs
+						armLaunchJobs(o.Owner, now)
+						if len(c.Launch[o.Owner]) > 0 {
+							lab["restart-of-an-actor-that-arms-jobs-in-OnLaunch"] = true
 						}
 					}
 				}
